@@ -1506,4 +1506,6 @@ ed_dec_priv = _codec_decode('eddsa', '_EdKey', 'decode_ssh_private', ED_G,
 # structured-input contracts: bounded work (normal runs need < 120 solver checks each)
 for _sp in list(Spec.registry):
     if _sp.prop == 'C15' and _sp.setup is not None:
-        _sp.max_solver_checks = 600
+        _sp.max_solver_checks = 400
+        _sp.max_struct_seconds = 240
+        _sp.length_abstraction = True
